@@ -44,7 +44,7 @@ ARRAY_TRANSMUTES = [
     "<GenericArray<$0,%s> as core::convert::AsMut<[$0;$1]>>::as_mut" % CAL,
 ]
 LIFETIME_FNS = [K + n for n in ("as_slice", "as_mut_slice", "from_slice", "try_from_slice", "from_mut_slice", "try_from_mut_slice")] + \
-    [d[0] for d in DELEGATES[:2]] + ["<&GenericArray<$0,$1> as core::convert::TryFrom<&[$0]>>::try_from", "<&mut GenericArray<$0,$1> as core::convert::TryFrom<&mut [$0]>>::try_from"] + BORROWS + ARRAY_REFS + ARRAY_TRANSMUTES + [
+    [d[0] for d in DELEGATES[:2]] + ["<&GenericArray<$0,$1> as core::convert::TryFrom<&[$0]>>::try_from", "<&mut GenericArray<$0,$1> as core::convert::TryFrom<&mut [$0]>>::try_from"] + BORROWS + [
         "<GenericArray<$0,$1> as core::ops::Deref>::deref", "<GenericArray<$0,$1> as core::ops::DerefMut>::deref_mut"]
 
 
@@ -200,25 +200,33 @@ def check_type_level(ctx, cfg):
     rule = "C02.T"
     from ..poly import prove
     # from_array / into_array: const_transmute between equal symbolic sizes
+    # from_array / into_array: by byte provenance - the result is exactly the bytes of the argument (sizes equal under the where-clause
+    # Const<U>: IntoArrayLength<ArrayLength = N>), the argument is moved and never dropped afterwards, no foreign call runs
+    from .c09 import provenance_rule
     for key in (K + "from_array", K + "into_array"):
-        b = ctx.body(cfg, key, rule)
-        if b is None:
+        provenance_rule(ctx, cfg, key, lambda a, S, N: [[(a.tenv.size(a.local_ty(1)), ("arg", 1), Poly.const(0))]], rule=rule)
+    # reference reinterpretations between GenericArray<T, N> and the native array [T; U]: discovered from the impls (AsRef / AsMut<[T; U]> for
+    # GenericArray, From<&[T; U]> / From<&mut [T; U]> for &GenericArray), not anchored by key - an impl restated with other generics is the same obligation
+    db = ctx.db(cfg)
+    found = []
+    for bd in db.bodies:
+        if bd["kind"] != "AssocFn" or bd.get("impl_trait") not in ("core::convert::AsRef", "core::convert::AsMut", "core::convert::From"):
             continue
-        a = ctx.analysis(cfg, key)
-        cs = a.calls_to("const_transmute")
-        if len(cs) != 1:
-            ctx.ob(rule, key, UNKNOWN if not cs else REFUTED, "expected exactly one const_transmute call, found %d" % len(cs), at=b["at"], cfg=cfg)
+        st = bd.get("impl_self")
+        targs = [x for x in bd.get("impl_trait_args", []) if x.get("k") != "region"]
+        tp = targs[1] if len(targs) > 1 else None
+        if st is None or tp is None:
             continue
-        c = cs[0]
-        sa, sb = a.tenv.size(c.targs[0]), a.tenv.size(c.targs[1])
-        ok = prove(("==", sa - sb), a.poly_facts(c.facts))
-        okv = c.args[0] == ("V", "arg", 1) and all(r["val"] == c.ret for r in a.returns)
-        ctx.ob(rule, key, ok and okv, "const_transmute::<%s, %s>: sizes %r vs %r under the where-clauses; argument is the parameter and the result is returned: %s" % (
-            tstr(c.targs[0]), tstr(c.targs[1]), sa, sb, okv), at=b["at"], cfg=cfg)
-    for key in ARRAY_REFS + ARRAY_TRANSMUTES:
-        b = ctx.body(cfg, key, rule)
-        if b is None:
-            continue
+
+        def is_arr(t):
+            return t is not None and t.get("k") == "array"
+        if bd["impl_trait"] in ("core::convert::AsRef", "core::convert::AsMut") and is_ga(st) and is_arr(tp):
+            found.append(bd["key"])
+        elif bd["impl_trait"] == "core::convert::From" and st.get("k") == "ref" and is_ga(st["t"]) and tp.get("k") == "ref" and is_arr(tp["t"]):
+            found.append(bd["key"])
+    ctx.floor(rule, "GenericArray <-> native array reference conversions (%s)" % cfg, len(found), 4)
+    for key in found:
+        b = db.get(key)
         a = ctx.analysis_inl(cfg, key, split=True, force="*", tag="conv")
         src = pointee(a.local_ty(1))
         dst = pointee(a.local_ty(0))
